@@ -108,6 +108,24 @@ CodecInit == /\ str \in Strings
                            reencodesTo |-> IF Canonical(str) THEN str ELSE <<>>]
 SpecCodec == CodecInit /\ GenInit /\ clock = 0 /\ [][UNCHANGED vars]_vars
 
+\* SpecCodecPoint - strings of the real length (16): a few canonical shapes with ONE position replaced by every class.
+\* The driver puts every byte value of that class at that position (byte-exhaustive single-position mutations).
+PointL == 16
+Bases == {[i \in 1..PointL |-> "D"],
+          [i \in 1..PointL |-> IF i = PointL THEN "D" ELSE "Z"],
+          [i \in 1..PointL |-> IF i = 1 THEN "L" ELSE "Z"],
+          [i \in 1..PointL |-> IF i % 3 = 0 THEN "L" ELSE IF i % 3 = 1 THEN "D" ELSE "Z"]}
+CanonicalN(s, n) == Len(s) = n /\ (\A i \in 1..n : s[i] \in {"Z", "D", "L"}) /\ (\E i \in 1..n : s[i] # "Z")
+PointInit == \E b \in Bases, p \in 1..PointL, c \in CharClass :
+               /\ str = [b EXCEPT ![p] = c]
+               /\ verdict = [decode |-> IF CanonicalN([b EXCEPT ![p] = c], PointL) THEN "ok" ELSE "reject",
+                             err |-> IF CanonicalN([b EXCEPT ![p] = c], PointL) THEN "none" ELSE "invalid",
+                             reencodesTo |-> IF CanonicalN([b EXCEPT ![p] = c], PointL) THEN [b EXCEPT ![p] = c] ELSE <<>>,
+                             pos |-> p]
+SpecCodecPoint == PointInit /\ GenInit /\ clock = 0 /\ [][UNCHANGED vars]_vars
+PointOK == /\ Len(str) = PointL
+           /\ str[verdict.pos] \in {"U", "X"} => verdict.decode = "reject"
+
 \* sanity of the model: accepted strings are fixed points of encode(decode(.)), nothing of another length is accepted
 CodecOK == /\ verdict.decode = "ok" => verdict.reencodesTo = str /\ Len(str) = L
            /\ (\E i \in 1..Len(str) : str[i] \in {"U", "X"}) => verdict.decode = "reject"
